@@ -104,6 +104,8 @@ func (c12) RunCase(c fw.Case, env *fw.Env) *fw.CaseResult {
 	}
 	var completed atomic.Int64
 	var cleanErrs, requests, deletions atomic.Int64
+	// deletions started or finished so far, and deletions running right now
+	var delMarks, delsInFlight atomic.Int64
 	totalOps := int64(c.Int("ops", 1500))
 	stop := make(chan struct{})
 	var wg sync.WaitGroup
@@ -124,7 +126,10 @@ func (c12) RunCase(c fw.Case, env *fw.Env) *fw.CaseResult {
 				sid := col.ShardIds[lr.IntN(len(col.ShardIds))]
 				dir := filepath.Join(root, "userCollections", col.UserId, col.Id, sid)
 				requests.Add(1)
+				marksBefore, inFlightBefore := delMarks.Load(), delsInFlight.Load()
+				entered := false
 				err := sm.DoWithShard(col, sid, func(s *shard.Shard) error {
+					entered = true
 					sp := fmt.Sprintf("%p", s)
 					rec(c12event{now(), "enter", dir, sp, gi})
 					defer func() {
@@ -162,8 +167,15 @@ func (c12) RunCase(c fw.Case, env *fw.Env) *fw.CaseResult {
 				if err != nil {
 					if strings.Contains(err.Error(), "already closed") {
 						cleanErrs.Add(1)
+					} else if !entered && (inFlightBefore > 0 || delMarks.Load() != marksBefore) {
+						// the shard could not be loaded while a deletion of collections was running or
+						// started: the request never touched a shard and got an error - "a clean error"
+						// (what the error says is not fixed; a negative control opened shard files outside
+						// the manager's global lock and met the directory vanishing under MkdirAll)
+						cleanErrs.Add(1)
+						res.Stat("load_errors_while_a_deletion_ran", 1)
 					} else {
-						res.Violate("request-error", "C12:request-error:"+errClass(err), fmt.Sprintf("DoWithShard returned an unexpected error: %v", err), nil)
+						res.Violate("request-error", "C12:request-error:"+errClass(err), fmt.Sprintf("DoWithShard returned an unexpected error (callback entered: %v; deletions in flight at the call: %d; deletion marks %d -> %d): %v", entered, inFlightBefore, marksBefore, delMarks.Load(), err), nil)
 					}
 				}
 				completed.Add(1)
@@ -187,7 +199,13 @@ func (c12) RunCase(c fw.Case, env *fw.Env) *fw.CaseResult {
 				time.Sleep(time.Duration(200+lr.IntN(3000)) * time.Microsecond)
 				col := cols[lr.IntN(len(cols))]
 				rec(c12event{now(), "delstart", col.Id, "", -1 - di})
+				// order matters for the readers (marks first, then in-flight): a request that reads
+				// "none in flight" after this line still sees the mark change by the time it fails
+				delsInFlight.Add(1)
+				delMarks.Add(1)
 				_, err := sm.DeleteCollectionShards(col)
+				delMarks.Add(1)
+				delsInFlight.Add(-1)
 				rec(c12event{now(), "delend", col.Id, "", -1 - di})
 				deletions.Add(1)
 				if err != nil {
